@@ -11,14 +11,14 @@ to the nearest definer, and splitting content over several streams.
 namespace Tabula.C01
 open Tabula.PdfDoc
 
-theorem resolvePath_append (inh : Attrs) (p q : List Attrs) :
+theorem resolvePath_append {R : Type} (inh : AttrsOf R) (p q : List (AttrsOf R)) :
     resolvePath inh (p ++ q) = resolvePath (resolvePath inh p) q := by
   induction p generalizing inh with
   | nil => rfl
   | cons a p ih => simp [resolvePath, ih]
 
 mutual
-theorem flatten_spec (t : PTree) (inh : Attrs) :
+theorem flatten_spec {R : Type} (t : PTreeOf R) (inh : AttrsOf R) :
     flatten t inh = (leafPaths t).map (resolvePath inh) := by
   cases t with
   | leaf a => simp [flatten, leafPaths, resolvePath]
@@ -28,7 +28,7 @@ theorem flatten_spec (t : PTree) (inh : Attrs) :
     apply List.map_congr_left
     intro p _
     simp [resolvePath]
-theorem flattenList_spec (ts : List PTree) (inh : Attrs) :
+theorem flattenList_spec {R : Type} (ts : List (PTreeOf R)) (inh : AttrsOf R) :
     flattenList ts inh = (leafPathsList ts).map (resolvePath inh) := by
   cases ts with
   | nil => simp [flattenList, leafPathsList]
@@ -40,15 +40,15 @@ end
 /-- **flatten_leaves / inherit_nearest**: for a page tree of any depth and fan-out, the page
 list is the left-to-right list of leaves, and each leaf's effective attributes are, key by
 key, those of the nearest ancestor-or-self that defines the key. -/
-theorem flatten_leaves_nearest (t : PTree) :
+theorem flatten_leaves_nearest {R : Type} (t : PTreeOf R) :
     flatten t {} = (leafPaths t).map (resolvePath {}) := flatten_spec t {}
 
 mutual
-theorem leafPaths_length (t : PTree) : (leafPaths t).length = countLeaves t := by
+theorem leafPaths_length {R : Type} (t : PTreeOf R) : (leafPaths t).length = countLeaves t := by
   cases t with
   | leaf a => simp [leafPaths, countLeaves]
   | node a kids => simp [leafPaths, countLeaves, leafPathsList_length kids]
-theorem leafPathsList_length (ts : List PTree) :
+theorem leafPathsList_length {R : Type} (ts : List (PTreeOf R)) :
     (leafPathsList ts).length = countLeavesList ts := by
   cases ts with
   | nil => simp [leafPathsList, countLeavesList]
@@ -56,31 +56,32 @@ theorem leafPathsList_length (ts : List PTree) :
 end
 
 /-- **page count = number of page leaves** -/
-theorem page_count_is_leaves (t : PTree) (inh : Attrs) :
+theorem page_count_is_leaves {R : Type} (t : PTreeOf R) (inh : AttrsOf R) :
     (flatten t inh).length = countLeaves t := by
   rw [flatten_spec, List.length_map, leafPaths_length]
 
 /-- a key's nearest definer decides: the deepest dictionary on the path that has `/MediaBox`
 supplies it, whatever lies above -/
-theorem nearest_mediabox (inh : Attrs) (above : List Attrs) (d : Attrs) (below : List Attrs)
+theorem nearest_mediabox {R : Type} (inh : AttrsOf R) (above : List (AttrsOf R)) (d : AttrsOf R)
+    (below : List (AttrsOf R))
     (box : Int × Int × Int × Int) (hd : d.mb = some box) (hb : ∀ a ∈ below, a.mb = none) :
     (resolvePath inh (above ++ d :: below)).mb = some box := by
   rw [resolvePath_append]
   simp only [resolvePath]
   generalize resolvePath inh above = acc
-  have h0 : (d.over acc).mb = some box := by simp [Attrs.over, hd]
+  have h0 : (d.over acc).mb = some box := by simp [AttrsOf.over, hd]
   generalize d.over acc = cur at h0
   induction below generalizing cur with
   | nil => simpa [resolvePath] using h0
   | cons a rest ih =>
     simp only [resolvePath]
     apply ih (fun x hx => hb x (by simp [hx]))
-    simp [Attrs.over, hb a (by simp), h0]
+    simp [AttrsOf.over, hb a (by simp), h0]
 
 /-- moving an inheritable key between levels that keep the nearest definer fixed does not
 change a leaf: only the resolved value matters (instance: grandparent vs parent) -/
-example : flatten (.node { mb := some (0, 0, 612, 792) } [.node {} [.leaf {}]]) {} =
-    flatten (.node {} [.node { mb := some (0, 0, 612, 792) } [.leaf {}]]) {} := by decide
+example : flatten (.node { mb := some (0, 0, 612, 792) } [.node {} [.leaf {}]] : PTree) {} =
+    flatten (.node {} [.node { mb := some (0, 0, 612, 792) } [.leaf {}]] : PTree) {} := by decide
 
 /-! ### content split over several streams -/
 
